@@ -115,9 +115,6 @@ def p_two53(case, rec, exp):
     if case.get("kind") == "un" and case.get("op") in ("UInc", "UDec"):
         a, _ = _operands(case)
         return _int_like(a) and abs(a) == TWO53 and o.get("r") in big
-    if case.get("kind") == "eq":
-        x, y = o.get("x", ""), o.get("y", "")
-        return (x in big or y in big) and _eq_shape(case, o, ("inc", "dec", "add1", "half2", "mul1", "sub0"))
     return False
 
 
